@@ -38,6 +38,10 @@ func main() {
 		err = c01Child(*replay)
 	case "c03":
 		err = c03Main(*seed, *n, *out, *repo, *gen, *replay)
+	case "c15":
+		err = c15Main(*seed, *n, *out, *repo)
+	case "c15child":
+		err = c15Child(*replay, *out, *n)
 	case "c13race":
 		err = c13Race(*seed, *n)
 	case "c13":
